@@ -167,6 +167,9 @@ def accept_ownership(R, env, prog, crate, dctx, arm, rule):
         for x, y in ((a, b), (b, a)):
             if is_sender(x) and pending_owner_payload(prog, y, crate):
                 return EQ[t[1]]
+            # the Option-level spelling: state.pending_owner == Some(info.sender)
+            if x[0] == "agg" and x[2] == "Some" and len(x[3]) == 1 and is_sender(x[3][0][2]) and loaded_field(prog, y, "state", ["pending_owner"], crate):
+                return EQ[t[1]]
         return None
 
     G = Guard("nominee", boolean=boolean)
